@@ -119,13 +119,21 @@ def generate(seed, tier="quick"):
     rnd = rng(ahb_seed, "c16-ahb")
     world, cer, universe = gen_world(rnd, p_unknown_run=0.05, n_hint=(1, 2), n_fc=(1, 2))
     pool = gen_expression_pool(rnd, universe, size=(2, 5), depth=(0, 1), max_parts=2)
+    big = tier == "thorough" and ahb_seed % 4 == 0  # larger AHBs (more positions than variants: sampled there)
     ahb = gen_validation_ahb(
-        rnd, pool, n_roots=(1, 2), depth=rnd.choice([0, 1, 1, 2]), p_pool=0.35, n_segments=(1, 2), n_des=(0, 3),
-        fanout=(0, 2),
+        rnd, pool, n_roots=(2, 3) if big else (1, 2), depth=rnd.choice([1, 2, 3] if big else [0, 1, 1, 2]), p_pool=0.35,
+        n_segments=(1, 3) if big else (1, 2), n_des=(0, 3), fanout=(0, 2),
     )
     positions = positions_of(ahb)
     rnd = rng(seed, "c16-fault")
-    if variant < len(positions):
+    if big and len(positions) > VARIANTS // 2:
+        # more positions than variants: the first half of the variants samples single positions, the rest subsets
+        if variant < VARIANTS // 2:
+            chosen = [positions[(variant * len(positions)) // (VARIANTS // 2)]]
+        else:
+            count = min(len(positions), rnd.choice([2, 2, 3, 4]))
+            chosen = sorted(rnd.sample(positions, count), key=positions.index)
+    elif variant < len(positions):
         chosen = [positions[variant]]
     else:
         count = min(len(positions), rnd.choice([2, 2, 3]))
